@@ -32,4 +32,10 @@ theorem system2jdnG_eq (before : Bool) (secs nanos : Int) (hs : 0 ≤ secs) :
           Bool.false_eq_true, bind, Option.bind, pure, unix2jdn_eq (-secs) ⟨by omega, by omega⟩]
         try (cases Chk.unix2jdn (-secs) <;> rfl)
 
+/-- `Calendar::now()` is `at_system_time` of whatever the clock says -/
+theorem calendarNow_eq (c : Calendar) (clock : Bool × Int × Int) :
+    calendarNow c clock = calendarAtSystemTime c clock := by
+  simp only [calendarNow, bind, Option.bind, pure]
+  try (cases calendarAtSystemTime c clock <;> rfl)
+
 end JV.Gen
